@@ -10,7 +10,8 @@ from mc import duck as D
 
 V0 = D.V0            # bohr^3
 B0 = 200.0 / 14710.507848260711   # Ry/bohr^3 (200 GPa)
-B0P = 4.0
+B0P = 5.2
+C4 = 1.9          # quartic term in (x-1): the static energy is neither quadratic nor cubic in Eulerian strain
 E0 = -120.0
 
 VOLUME_SETS = {
@@ -90,7 +91,7 @@ def eulerian(v0, v):
 def bm3_energy(v):
     v = numpy.asarray(v, float)
     x = (V0 / v) ** (2.0 / 3.0)
-    return E0 + 9.0 * V0 * B0 / 16.0 * ((x - 1.0) ** 3 * B0P + (x - 1.0) ** 2 * (6.0 - 4.0 * x))
+    return E0 + 9.0 * V0 * B0 / 16.0 * ((x - 1.0) ** 3 * B0P + (x - 1.0) ** 2 * (6.0 - 4.0 * x) + C4 * (x - 1.0) ** 4)
 
 
 def static_value(pair, v, kind, vols):
